@@ -44,6 +44,7 @@ func TestVerifC16(t *testing.T) {
 		{CallsA: 1, ViewA: map[uint64]uint64{0: 0}, Ops: []vsched.NotifyOp{U(1), U(0)}, Cancel: true},
 		{CallsA: 1, CallsB: 1, ViewA: map[uint64]uint64{0: 0}, ViewB: map[uint64]uint64{0: 1}, Ops: []vsched.NotifyOp{U(1), U(0)}},
 		{CallsA: 1, ViewA: map[uint64]uint64{0: 1}, Ops: []vsched.NotifyOp{U(1)}, Cancel: true},
+		{CallsA: 1, CallsB: 1, ViewA: map[uint64]uint64{0: 0}, ViewB: map[uint64]uint64{0: 0}, Ops: []vsched.NotifyOp{U(1)}, CancelFirstOnly: true},
 	}
 	newWorld := func(sc vsched.NotifyScenario) vsched.NotifyWorld {
 		w := &c16world{m: NewManager(StateActive)}
